@@ -230,6 +230,12 @@ def assumptions_report():
 def ensure_harness(bins, release=False):
     """Builds harness binaries against /repo's current working tree (feature verif-hooks)."""
     with Lock("harness"):
+        # Cargo.toml is generated so that the harness can be pointed at a scratch copy of the repository
+        tmpl = open(os.path.join(HARNESS, "Cargo.toml.in")).read().replace("@REPO@", REPO)
+        ct = os.path.join(HARNESS, "Cargo.toml")
+        if not os.path.exists(ct) or open(ct).read() != tmpl:
+            with open(ct, "w") as f:
+                f.write(tmpl)
         lock_src = os.path.join(REPO, "Cargo.lock")
         lock_dst = os.path.join(HARNESS, "Cargo.lock")
         if os.path.exists(lock_src) and not os.path.exists(lock_dst):
